@@ -955,9 +955,18 @@ Definition graph_wf (g : graph) : bool :=
   && forallb (fun na => nodup_nodes (map fst (snd na)) && forallb (fun vr => has_node (fst vr) g) (snd na)) g.
 Definition out_first (g : graph) : bool := match g with (NOut, _) :: _ => true | _ => false end.
 (* what CompartmentalSystemBuilder does to its graph with add_compartment / add_flow *)
-Inductive bop := BAddComp (c : compartment) | BAddFlow (u v : node) (r : E).
+Inductive bop := BAddComp (c : compartment) | BAddFlow (u v : node) (r : E) | BRemoveFlow (u v : node).
+(* DiGraph.remove_edge(u, v): v leaves u's successors, the order of the others is kept; when there is
+   no such edge networkx raises and the graph is unchanged *)
+Definition remove_edge (u v : node) (g : graph) : graph :=
+  map (fun na => if node_eqb u (fst na)
+                 then (fst na, filter (fun vr => negb (node_eqb v (fst vr))) (snd na)) else na) g.
 Definition run_bop (g : graph) (o : bop) : graph :=
-  match o with BAddComp c => add_node (NComp c) g | BAddFlow u v r => add_edge u v r g end.
+  match o with
+  | BAddComp c => add_node (NComp c) g
+  | BAddFlow u v r => add_edge u v r g
+  | BRemoveFlow u v => remove_edge u v g
+  end.
 Definition fresh_builder : graph := [(NOut, [])].
 Definition run_bops (ops : list bop) : graph := fold_left run_bop ops fresh_builder.
 Definition cs_ok (s : csys) : bool := graph_wf (cs_g s) && out_first (cs_g s).
